@@ -153,3 +153,18 @@ TEXTS["C07"] = {
     "note": POOL_NOTE,
     "technique": "Coq proof (cursor/snapshot invariants, order lemmas) + exact differential correspondence + Go reference monitors",
 }
+
+TEXTS["C10"] = {
+  "text": "CLAIMED PARTIAL. Machine-checked (Coq, Props/C10.v) on a log/sync/crash model: the disk is a log of journal records (one per db.Write of a non-empty batch) with synced flags; "
+          "a crash keeps every synced record and an arbitrary prefix of the unsynced tail, whole records only; the flush logic of DB and SerialDB (size-triggered flush, Tick, Close+reopen) runs as a micro-step "
+          "machine and EVERY intermediate state (batch updated / counter incremented / write started / write completed / batch reset / closed / reopened) is a crash point. For all histories, MaxBatchSize, both "
+          "persisters, all crash points and all surviving tails: the recovered map is the map after exactly j flushes - i.e. of a PREFIX of the history ending at a flush position computed from the property text - "
+          "with completed <= j <= started (C10_flush_boundary); whole batches in order for any write option (C10_atomic_in_order); with Sync:true every completed flush survives the loss of all unsynced data "
+          "(C10_synced_survive) and with Sync:false it does not (C10_synced_survive_nosync_refuted); an acknowledged write followed by MaxBatchSize-1 writes or a Tick/Close is in every later recovery "
+          "(C10_exposure); without a crash the log model equals the C08/C09 persister model (C10_refines_persist_models). VALIDATED, NOT PROVED: (i) model = code, by exact differential agreement on the recovered maps "
+          "of crash images at every storage event x {none, all} tails, journal record/fsync counts, and model-judged torn-tail maps; (ii) real fsync semantics, goleveldb journal format, CRC drop of a torn record, "
+          "recovery/table/manifest code: crash images written as plain files and reopened by the unmodified NewDB/NewSerialDB; (iii) the timer's real-time bound: real BatchDelaySeconds=1 runs, flush fsync'ed within 1 s (+1 s slack).",
+  "note": "Trusted: Coq kernel; hand-written model tied by differential runs; extraction; OCaml driver; Go harness incl. the recording storage wrapper and its crash-image semantics (prefix-in-write-order tails, "
+          "metadata operations durable when issued); the verif-tagged open hook leveldb/verif_on.go. Storage write errors are not injected. No axioms.",
+  "technique": "Coq proof over a log/sync/crash micro-step model with the write option as parameter + exhaustive crash-point enumeration on a recording storage.Storage (3 tail choices, images reopened by unmodified code) + model-vs-code differential on crash observables + property-text monitors + mutant sensitivity",
+}
